@@ -85,6 +85,11 @@ def run(ctx) -> None:
             rep.add("C05.R3", f"{exc_.qname}:{cal.func.name}:no-own-selection", sel is None, f"{ex.module.rel}:{c.lineno}", "the nested call passes no selection: the inner graph's own selection (else all outputs) applies, exactly what the wrapper advertises" if sel is None else f"the nested {cal.func.name}() is given select={src(sel)}: the inner graph's own select() is overridden, unselected inner values are written into the enclosing state under their inner names and overwrite equally named values there — the nested graph no longer exposes exactly its selected outputs")
     if n_nested < 4:
         raise AnalysisError(f"only {n_nested} nested run/map calls found in the graph-node executors")
+    # results of the nested run reach the enclosing graph under the wrapper's *current* output names: the translator never
+    # inverts the rename table over abandoned intermediate names
+    from .c06 import check_inversions_over_current_names
+
+    check_inversions_over_current_names(ctx, "C05.R2")
     rs = db.func("runners._shared.helpers._resolve_select")
     from .common import canon_src
 
